@@ -410,7 +410,7 @@ package store
 // from the temporary database after its checkpoint; the log is compacted only after that snapshot
 // was closed successfully.
 //@ func RecoverNode
-//@   requires [args] logger != nil && logs != nil && snaps != nil
+//@   requires [args] logger != nil
 //@   assigns **
 //@   ghost var cfgOK bool = false
 //@   ghost var restored bool = false
@@ -582,3 +582,19 @@ package store
 //@   assert @servers.IsReadReplica: [role-of-the-failing-node] arg0 == id
 //@   loop 1 invariant [none] true
 //@   loop 2 invariant [none] true
+//
+// ---- C33 / C03: opening a store that is asked to recover (peers.json present) --------------------------
+// A manual recovery rewrites the snapshot store (RecoverNode replays the log into a new snapshot
+// and deletes the log); the live database must then be rebuilt from that snapshot. So the
+// clean-snapshot fast path (keep the SQLite file, tell raft not to restore on start) must not be in
+// force when RecoverNode runs, and the database files are removed before the database is reopened.
+//@ func (*Store) Open
+//@   requires [recv] s != nil && s.snapshotCAS != nil && s.fsmTarget != nil && s.appliedTarget != nil && s.logger != nil
+//@   assigns **
+//@   ghost var fast bool = false
+//@   ghost var recovered bool = false
+//@   ghost update after @set:raftConfig.NoSnapshotRestoreOnStart: fast = true
+//@   assert @RecoverNode: [no-fast-path-with-recovery] !fast && removeDBFiles
+//@   ghost update @RecoverNode: recovered = (result == nil)
+//@   assert @createDBOnDisk: [rebuild-database-after-recovery] recovered ==> (arg2 && !fast)
+//@   assert @createDBOnDisk: [fast-path-keeps-files] arg2 == !fast
